@@ -121,8 +121,12 @@ def summarise(pid, results, meta, tier, t0):
     weak_guard = [r for r in canaries + covers if r['verdict'] == 'undecided']
     os.makedirs(common.REPLAY_DIR, exist_ok=True)
     lines = []
+    seen_known = set()
     for r in printed_known:
         k = known_keys[r['finding_key']]
+        if r['finding_key'] in seen_known:
+            continue
+        seen_known.add(r['finding_key'])
         lines.append('KNOWN-FINDING: property=%s %s [%s]' % (pid, k.get('what', r['detail'][:200]), r['finding_key']))
     for r in violations:
         path = os.path.join(common.REPLAY_DIR, pid, _safe(r['id']) + '.json')
